@@ -13,7 +13,7 @@ from mdmc.refs import codec_ref
 
 ID = "C13"
 TITLE = "Base64, hexadecimal and XOR decodings are bit-exact"
-STREAM_FAMS = ["b64hex", "mix"]
+STREAM_FAMS = ["b64hex", "mix", "ctx"]
 B64ABC = codec_ref.B64
 
 
@@ -40,6 +40,8 @@ CALLS = [
     ("atob-dq", b'atob("', b'")', "javascript.string"), ("atob-sq", b"atob('", b"')", "javascript.string"),
     ("b64dec-sq", b"Base64Decode('", b"')", "vba.string"), ("b64dec-dq", b'base64decode("', b'")', "vba.string"),
     ("fromb64", b"FromBase64String('", b"')", "powershell.bytes"), ("fromb64-conv", b'[System.Convert]::FromBase64String("', b'")', "powershell.bytes"),
+    ("fromb64-lower", b"[system.convert]::frombase64string('", b"')", "powershell.bytes"), ("atob-mixedq", b"atob('", b'")', "javascript.string"),
+    ("b64dec-upper", b'BASE64DECODE("', b"')", "vba.string"),
 ]
 EMBED = [(b"", b""), (b"x ", b" y"), (b"a=", b";b"), (b"\n", b"\n")]
 BREAKS = [b"", b"\n", b"\r\n", b"&#10;", b"&#xA;", b"&#13;&#10;", b"&#xD;&#xA;", b"<\x00  \x00", b"&#13;\n"]
@@ -53,7 +55,7 @@ def describe(tier):
             "encoding.base64 node covering exactly the blob with the payload as value whenever the documented acceptance rules hold (own predicate); "
             "boundary blobs on both sides of every rule (20/24 characters, 6/7 distinct characters, pure hex, pure letters, slash share 3/32 +- one "
             "character); every assignment of %d line-break spellings to the %d gaps of a 7-group blob; 6 call forms x every payload length; hex runs of "
-            "9/10/11/16 pairs x lower/upper/mixed x digit-only prefixes of 0..24 characters x embeddings; FromHexString call form. "
+            "9/10/11/16 pairs x lower/upper/mixed x digit-only prefixes of 0..24 characters x embeddings; FromHexString call forms (plain, [System.Convert]:: prefix, lower case); PowerShell byte arrays of 499..640 elements x 5 element spellings (decimal, 0x hex, 0X HEX, zero-padded, mixed) x 4 separators x 3 embeddings. "
             "Forward direction: every node labelled encoding.base64 / decoded.hexadecimal / encoding.hexidecimal / cipher.xor* / cipher.multibyte_xor "
             "met in these runs, in xor runs (keys 0..999 x 4 spellings x 3 carriers; key-guessing form with repeating keys of length 1..4) and in every "
             "scan of the b64hex/mix scan-level families is recomputed with own RFC 4648 / hex decoders from the text it replaced; an xor child must equal "
@@ -75,7 +77,7 @@ def plan(tier, seed):
     units += [("breaks", i) for i in range(len(BREAKS))]
     units += [("calls", tier, ci) for ci in range(len(CALLS))]
     units += [("hex", case) for case in ("lower", "upper", "mixed")]
-    units += [("xor", c) for c in range(3)] + [("xorguess",)]
+    units += [("xor", c) for c in range(3)] + [("xorguess",)] + [("psbytes", i) for i in range(4)]
     units += [("stream", u) for u in streams.plan(tier, fams=STREAM_FAMS)]
     return units
 
@@ -299,11 +301,12 @@ def run_unit(unit, rec):
                         exp = None
                     scan_and_check(rec, data, w, exp)
                     if pairs >= 10 and same_case:
-                        expr = b"FromHexString('" + blob + b"')"
-                        d2 = pre + expr + suf
-                        rec.mark("states", d2)
-                        scan_and_check(rec, d2, {"kind": "hexcall", "data": d2, "blob": [len(pre), len(pre) + len(expr)]},
-                                       ("encoding.hexidecimal", "powershell.bytes", len(pre), len(pre) + len(expr), bytes.fromhex(blob.decode())))
+                        for head in (b"FromHexString('", b"[System.Convert]::FromHexString('", b"fromhexstring('"):
+                            expr = head + blob + b"')"
+                            d2 = pre + expr + suf
+                            rec.mark("states", d2)
+                            scan_and_check(rec, d2, {"kind": "hexcall", "data": d2, "blob": [len(pre), len(pre) + len(expr)], "head": len(head)},
+                                           ("encoding.hexidecimal", "powershell.bytes", len(pre), len(pre) + len(expr), bytes.fromhex(blob.decode())))
         rec.sample({"family": "hex-" + case, "last": data})
     elif kind == "xor":
         carriers = [b"[System.Convert]::FromBase64String('R1ZASEdWQEg=')", b"FromHexString('4756404803444c4650035256424048')",
@@ -315,6 +318,41 @@ def run_unit(unit, rec):
                 rec.mark("states", data, True)
                 scan_and_check(rec, data, {"kind": "xor", "data": data})
         rec.sample({"family": "xor-keys", "carrier": c[:40], "last": data[-30:]})
+    elif kind == "psbytes":
+        fmts = [lambda v: b"%d" % v, lambda v: b"0x%02x" % v, lambda v: b"0X%02X" % v, lambda v: b"%03d" % v]
+        seps = [b",", b", ", b",\n", b",  \t"]
+        sep = seps[unit[1]]
+        for n in (499, 500, 501, 502, 640):
+            for style in range(5):
+                vals = [(i * 37 + 11 + style) % 256 for i in range(n)]
+                if style < 4:
+                    elems = [fmts[style](v) for v in vals]
+                else:
+                    elems = [fmts[i % 4](v) for i, v in enumerate(vals)]
+                blob = sep.join(elems)
+                for pre, suf in ((b"", b""), (b"$a = ", b";"), (b"[byte[]](", b")")):
+                    data = pre + blob + suf
+                    rec.mark("states", data, True)
+                    w = {"kind": "psbytes", "n": n, "style": style, "sep": sep, "pre": pre, "suf": suf}
+                    rec.count("evaluations")
+                    ok, res = rec.guard("C13.total", w, n, trees.iscan, streams.registry(), data, 10)
+                    if not ok:
+                        continue
+                    rec.count("traces")
+                    tree, log = res
+                    found = [(nd, s0) for nd, s0 in trees.abs_nodes(tree) if nd.type == "powershell.bytes" and nd.obfuscation == ""]
+                    rec.count("transitions", len(found))
+                    if n >= 501:
+                        rec.mark("nontrivial", data, True)
+                        exact = [nd for nd, s0 in found if s0 == len(pre) and s0 + nd.end - nd.start == len(pre) + len(blob)]
+                        if len(exact) != 1 or exact[0].value != bytes(vals):
+                            got = [(s0, s0 + nd.end - nd.start, nd.value[:8]) for nd, s0 in found]
+                            rec.violation("C13.psbytes", f"byte-array|{'not-found' if not exact else 'value'}", w,
+                                          f"{n}-element byte array (element style {style}, separator {sep!r}) is not decoded to exactly its bytes over exactly its span: {core.short(got, 160)}", n)
+                    else:
+                        if found:
+                            rec.note("byte array below the documented minimum was decoded")
+        rec.sample({"family": "powershell-byte-arrays", "separator": sep, "sizes": [499, 500, 501, 502, 640]})
     elif kind == "xorguess":
         plain = (b"This program cannot be run in DOS mode. " * 16)[:600]
         for klen in (1, 2, 3, 4):
@@ -325,7 +363,7 @@ def run_unit(unit, rec):
                 scan_and_check(rec, data, {"kind": "xor", "data": data})
         rec.sample({"family": "xor-key-guess", "last": data[-40:]})
     elif kind == "stream":
-        streams.run_unit(unit[1], rec, stream_monitor)
+        streams.run_unit(unit[1], rec, stream_monitor, repeat=2)
 
 
 def stream_monitor(rec, case):
@@ -341,6 +379,9 @@ def stream_monitor(rec, case):
 
 def replay(w, rec):
     k = w.get("kind")
+    if k == "psbytes":
+        run_unit(("psbytes", [b",", b", ", b",\n", b",  \t"].index(w["sep"])), rec)
+        return
     if k in ("bare", "call", "hex", "hexcall", "xor"):
         data = w["data"]
         exp = None
@@ -357,7 +398,7 @@ def replay(w, rec):
                 exp = ("decoded.hexadecimal", "", a, b, bytes.fromhex(data[a:b].decode()))
         elif k == "hexcall":
             a, b = w["blob"]
-            exp = ("encoding.hexidecimal", "powershell.bytes", a, b, bytes.fromhex(data[a + 15 : b - 2].decode()))
+            exp = ("encoding.hexidecimal", "powershell.bytes", a, b, bytes.fromhex(data[a + w.get("head", 15) : b - 2].decode()))
         scan_and_check(rec, data, w, exp)
     elif k == "breaks":
         data = w["data"]
